@@ -33,6 +33,9 @@ class FakeBam:
     def __init__(self, alns):
         self.alns = alns
 
+    def get_tid(self, chr_id):
+        return 0
+
     def fetch(self, chr_id, start, end, multiple_iterators=False):
         # htslib: records overlapping the half-open interval [start, end)
         return iter([a for a in self.alns if a.reference_start < end and a.reference_end > start])
